@@ -68,6 +68,14 @@ def main():
     for _ in range(400 if quick else 6000):           # products
         k = rng.choice([2, 2, 3])
         cases.append({"op": "roundtrip", "u": [[rng.choice([None, None] + prefixes), rng.choice(names), rng.choice([1, 1, 2, -1, -2, 3])] for _ in range(k)]})
+    # exponents of more than one digit (most significant digit first, not palindromes), both signs, with and without a prefix
+    BIG = (10, 12, -12, 21, -20, 13, 100, 123, -321, 1020)
+    for n in (rng.sample(names, 12 if quick else 60) + [x for x in ("meter", "second", "newton", "hertz") if x in names]):
+        for p in (None, rng.choice(prefixes)):
+            for e in (BIG if not quick else rng.sample(BIG, 5)):
+                cases.append({"op": "roundtrip", "u": [[p, n, e]]})
+    for _ in range(40 if quick else 500):
+        cases.append({"op": "roundtrip", "u": [[rng.choice([None] + prefixes), rng.choice(names), rng.choice(BIG)], [None, rng.choice(names), rng.choice([1, -1, 2] + list(BIG))]]})
     nrt = len(cases)
     MAGS = [["int", "3", "1"], ["int", "-12", "1"], ["float", "5", "2"], ["float", "-1", "8"], ["int", "0", "1"], ["float", "6020000", "1"]]
     for _ in range(300 if quick else 4000):
@@ -91,7 +99,7 @@ def main():
         k = rng.choice([1, 2, 2, 3])
         syms = [rng.choice(symbols) for _ in range(k)]
         if not all(lexable(s) for s in syms) or len(set(syms)) < k: continue
-        terms = [(s, rng.choice([1, 2, -1, -2, 3, -3])) for s in syms]
+        terms = [(s, rng.choice([1, 2, -1, -2, 3, -3, 12, -21, 10, 130])) for s in syms]
         cases.append({"op": "spellings", "texts": spellings(rng, terms)})
     # resolution: every prefix symbol in front of every unit symbol, every name, every symbol, random strings
     res_start = len(cases)
